@@ -64,6 +64,25 @@ type WorkerArgs struct {
 
 var curExecStart int64 // unix nanos of the Exec in flight (watchdog)
 
+// openKeys: open known-finding keys of the property under check (set by RunWorker).
+var openKeys map[string]bool
+
+// finalize promotes tolerated known-finding hits whose key is not listed as open to violations.
+func finalize(out *Outcome) *Outcome {
+	if out == nil || out.Infra != "" {
+		return out
+	}
+	for _, k := range out.Known {
+		if !openKeys[k.Key] {
+			if out.V == nil || k.Step < out.V.Step {
+				out.V = k
+			}
+			break
+		}
+	}
+	return out
+}
+
 func safeExec(p Prop, c *Case, wrap func(Prop, *Case) *Outcome) (out *Outcome) {
 	atomic.StoreInt64(&curExecStart, time.Now().UnixNano())
 	defer atomic.StoreInt64(&curExecStart, 0)
@@ -74,9 +93,9 @@ func safeExec(p Prop, c *Case, wrap func(Prop, *Case) *Outcome) (out *Outcome) {
 		}
 	}()
 	if wrap != nil {
-		return wrap(p, c)
+		return finalize(wrap(p, c))
 	}
-	return p.Exec(c)
+	return finalize(p.Exec(c))
 }
 
 // RunWorker is the main loop of one worker process.
@@ -89,6 +108,7 @@ func RunWorker(a WorkerArgs) int {
 	if a.MaxViol == 0 {
 		a.MaxViol = 3
 	}
+	openKeys = a.KnownKeys
 	start := time.Now()
 	sum := &Summary{Prop: a.Prop, Tier: a.Tier, Seed: a.Seed, Worker: a.Worker, Workers: a.Workers,
 		Probes: map[string]int{}, Faults: map[string]int{}, Witness: map[string]string{}, KnownSeen: map[string]int{}, Desc: p.Describe()}
@@ -155,6 +175,11 @@ func RunWorker(a WorkerArgs) int {
 		}
 		for k, v := range out.Faults {
 			sum.Faults[k] += v
+		}
+		for _, kh := range out.Known {
+			if a.KnownKeys[kh.Key] {
+				sum.KnownSeen[kh.Key]++
+			}
 		}
 		sum.SimMs += out.SimMs
 		sum.Steps += out.Steps
